@@ -175,6 +175,10 @@ non-trivial = IRI and base share scheme and authority text (so the path/query br
                         let witness = cands.iter().find(|c| !c.starts_with("//") && lead_parents(c) == 0 && matches!(base.resolve(c.as_str()), Ok(x) if x.as_str() == i));
                         if same_upto_frag || witness.is_some() {
                             fail(&mut sum, format!("IRI differs from the base in query/fragment only but relativize returned None{}", witness.map(|w| format!(" (e.g. {w:?} resolves to it)")).unwrap_or_default()));
+                        } else if let Some(w) = cands.iter().find(|c| c.starts_with("//") && matches!(base.resolve(c.as_str()), Ok(x) if x.as_str() == i)) {
+                            // the property says "always relativised"; the only reference that resolves to the IRI is a
+                            // network-path one, which relativize never produces: a (listed) finding, not a wrong answer
+                            fail(&mut sum, format!("no-query corner: IRI differs from the base only by dropping the query, relativize returned None although the network-path reference {w:?} resolves to it"));
                         } else { sum.bump("same-path-but-no-reference-exists"); }
                     }
                 }
